@@ -144,3 +144,41 @@ Theorem C20_split_unguarded_refuted :
   exists q, lf_split_filter false q = LfOob /\ exists f, lf_split_filter true q = LfVal f.
 Proof. exact lf_split_unguarded_refuted. Qed.
 Print Assumptions C20_split_unguarded_refuted.
+
+(* the whole GET path: Uri-Query option -> coap_get_query -> handler.  No option: the full
+   listing; one option whose bytes need no percent-escaping: the listing restricted by it *)
+Theorem C20_handle_get : forall rs,
+  lf_table_ok rs = true ->
+  (len (lf_listing (lf_selected None rs)) <= lf_status_max ->
+   lf_handle_get rs [] = Lf205 (lf_listing (lf_selected None rs))) /\
+  (forall q, q <> [] -> forallb lf_unescaped_in_query q = true ->
+   len (lf_listing (lf_selected (Some q) rs)) <= lf_status_max ->
+   lf_handle_get rs [q] = Lf205 (lf_listing (lf_selected (Some q) rs))).
+Proof. exact lf_handle_get_listing. Qed.
+Print Assumptions C20_handle_get.
+
+(* ... and in general the listing restricted by the escaped query text *)
+Theorem C20_handle_get_general : forall rs opts,
+  lf_table_ok rs = true ->
+  len (lf_listing (lf_selected (lf_get_query opts) rs)) <= lf_status_max ->
+  lf_handle_get rs opts = Lf205 (lf_listing (lf_selected (lf_get_query opts) rs)).
+Proof. exact lf_handle_get_general. Qed.
+Print Assumptions C20_handle_get_general.
+
+(* open finding F20c: a filter value with a byte that coap_get_query escapes (hash, space, double quote,
+   percent, ...) is compared in its escaped form: the resource that has exactly that value is not
+   listed *)
+Theorem C20_handle_get_escaped_refuted :
+  exists rs q r, lf_table_ok rs = true /\ rs = [r] /\ lf_filter_spec q r = true /\
+                 lf_handle_get rs [q] = Lf205 [].
+Proof. exact lf_handle_get_escaped_refuted. Qed.
+Print Assumptions C20_handle_get_escaped_refuted.
+
+(* open finding F20d: with block mode 0 (no COAP_BLOCK_USE_LIBCOAP) a listing longer than the
+   room in one PDU is delivered cut, as a complete response *)
+Theorem C20_handle_get_nolib_refuted :
+  exists rs room, lf_table_ok rs = true /\
+    lf_handle_get rs [] = Lf205 (lf_listing (lf_selected None rs)) /\
+    exists b, lf_handle_get_nolib rs [] room = Lf205 b /\ len b < len (lf_listing (lf_selected None rs)).
+Proof. exact lf_handle_get_nolib_refuted. Qed.
+Print Assumptions C20_handle_get_nolib_refuted.
